@@ -281,8 +281,8 @@ def run(ctx):
     rets = A.returns(gi)
     guarded = False
     for r in rets:
-        tests = G.enclosing_tests(gi, r)
-        guarded = any(pol and "is_register_active" in A.norm(t) and isinstance(t, ast.UnaryOp) for t, pol in tests)
+        tests = G.path_conditions(gi, r)
+        guarded = isinstance(r.value, ast.Name) and any((not pol) and isinstance(t, ast.Call) and A.call_name(t) == "is_register_active" and t.args and A.norm(t.args[0]) == r.value.id for t, pol in tests)
     ctx.check("C14.A3", "MemoryManager.get_inactive_register:returns-only-inactive", guarded, "the returned register is not tested to be inactive", mm.loc(gi))
     ctx.check("C14.A3", "MemoryManager.get_inactive_register:exhaustion-raises", G.always_raises(A.strip_docstring(gi.body)), "running out of registers does not raise", mm.loc(gi), trivial=True)
     ar = mm.methods.get("add_active_register")
